@@ -5,7 +5,7 @@
 From Coq Require Import List NArith Bool Ascii.
 From Coq Require Export String.
 From AdltV Require Import Base.Obs.
-From AdltV Require Export Filter.Match Filter.Frontends.
+From AdltV Require Export Filter.Match Filter.Frontends Filter.FrontendsXml.
 Import ListNotations.
 Open Scope N_scope.
 
@@ -16,28 +16,16 @@ Definition jkey_names : list (string * jkey) :=
    ("ignoreCasePayload", KIgnoreCasePayload); ("payloadRegex", KPayloadRegex); ("payload", KPayload);
    ("logLevelMin", KLogLevelMin); ("logLevelMax", KLogLevelMax); ("lifecycles", KLifecycles);
    ("verb_mstp_mtin", KVerbMstpMtin); ("mstp", KMstp)]%string.
-Definition dkey_names : list (string * dkey) :=
-  [("type", DType); ("enablefilter", DEnableFilter);
-   ("enableecuid", DEnableEcuId); ("ecuid", DEcuId);
-   ("enableapplicationid", DEnableApplicationId); ("applicationid", DApplicationId); ("enableregexp_Appid", DEnableRegexpAppid);
-   ("enablecontextid", DEnableContextId); ("contextid", DContextId); ("enableregexp_Context", DEnableRegexpContext);
-   ("enablecontrolmsgs", DEnableControlMsgs);
-   ("enablepayloadtext", DEnablePayloadText); ("ignoreCase_Payload", DIgnoreCasePayload);
-   ("payloadtext", DPayloadText); ("enableregexp_Payload", DEnableRegexpPayload);
-   ("enableLogLevelMax", DEnableLogLevelMax); ("logLevelMax", DLogLevelMax);
-   ("enableLogLevelMin", DEnableLogLevelMin); ("logLevelMin", DLogLevelMin)]%string.
-
 Fixpoint name_lookup {K} (dflt : K) (tbl : list (string * K)) (s : string) : K :=
   match tbl with
   | [] => dflt
   | (n, k) :: r => if String.eqb n s then k else name_lookup dflt r s
   end.
 Definition jkey_of_name := name_lookup KOther jkey_names.
-Definition dkey_of_name := name_lookup DOther dkey_names.
 
 Inductive fe_in :=
 | InJson (top : option (list (string * jvalue)))     (* None: the text is not a JSON object *)
-| InDlf (fs : list (list (string * text)))           (* one element map per <filter> *)
+| InDlf (evs : list xev)                              (* the events quick-xml produces for the file *)
 | InConv (buf : list N)
 | InEac (s : text).
 
@@ -151,8 +139,7 @@ Section Run.
     | InJson (Some kv) =>
         o_loaded (option_map (fun f => [f])
                     (from_json_kv (valid_of vt) (JObject (map (fun p => (jkey_of_name (fst p), snd p)) kv))))
-    | InDlf fs =>
-        o_loaded (Some (map (fun a => from_dlf_attrs (valid_of vt) (map (fun p => (dkey_of_name (fst p), snd p)) a)) fs))
+    | InDlf evs => o_loaded (filters_from_dlf_events (valid_of vt) evs)
     | InConv buf => o_loaded (Some (from_convert_format buf))
     | InEac s =>
         (* driven through `adlt convert --eac=`: only the selection is visible *)
